@@ -184,9 +184,12 @@ def make_exc(fault):
 
 class OpContext:
     """Per-operation record: call trace, invocation counter, planned faults."""
-    __slots__ = ('trace', 'n', 'faults', 'fired', 'kinds_count')
+    __slots__ = ('trace', 'n', 'faults', 'fired', 'kinds_count', 'nested')
 
     def __init__(self, faults=None):
+        # nested: {invocation index: zero-argument callable} - user code that, inside its
+        # __init__ / hook, calls another load or dump function (re-entrant use)
+        self.nested = None
         self.trace = []
         self.n = 0
         # faults: {invocation index (int): fault record}
@@ -217,6 +220,10 @@ def cb(kind, uid):
     hook = yield_hook
     if hook is not None:
         hook('cb')
+    if ctx.nested:
+        nest = ctx.nested.pop(i, None)
+        if nest is not None:
+            nest()
     f = ctx.faults.get(i)
     if f is not None:
         # a fault record may restrict itself to a site kind; if the kind at
